@@ -268,6 +268,8 @@ impl CommitPipeline {
 
 		// Acquire permit for flow control
 		let _permit = self.commit_sem.acquire().await.map_err(|_| Error::PipelineStall)?;
+		#[cfg(surrealkv_verif)]
+		crate::verif::gate("commit.permit", &[("start", start_seq)]);
 
 		let (commit_batch, complete_rx) = CommitBatch::new(batch.count());
 
@@ -344,17 +346,29 @@ impl CommitPipeline {
 					commit_batch.mark_applied();
 					// Release write_mutex before draining the queue.
 					drop(_guard);
+					#[cfg(surrealkv_verif)]
+					crate::verif::gate("commit.logfail", &[("seq", seq_num)]);
 					self.publish();
 					return Err(e);
 				}
 			}
 		};
 		// === END CRITICAL SECTION ===
+		#[cfg(surrealkv_verif)]
+		crate::verif::gate(
+			"commit.logged",
+			&[("seq", allocated_seq), ("count", batch.count() as u64), ("start", start_seq)],
+		);
 
 		// Memtable apply — OUTSIDE write_mutex. The next committer can already
 		// be inside the critical section. This restores the pipeline overlap
 		// that PR #378 destroyed.
 		let apply_result = self.env.apply(&processed_batch);
+		#[cfg(surrealkv_verif)]
+		crate::verif::gate(
+			"commit.applied",
+			&[("seq", allocated_seq), ("ok", apply_result.is_ok() as u64)],
+		);
 
 		// =========================================================================
 		// Failure-path invariants
@@ -392,9 +406,13 @@ impl CommitPipeline {
 		};
 
 		commit_batch.mark_applied();
+		#[cfg(surrealkv_verif)]
+		crate::verif::gate("commit.marked", &[("seq", allocated_seq)]);
 
 		// Publish (multi-consumer) - MUST always run to drain queue
 		self.publish();
+		#[cfg(surrealkv_verif)]
+		crate::verif::gate("commit.published", &[("seq", allocated_seq)]);
 
 		if let Some(err) = apply_err {
 			return Err(err);
@@ -417,6 +435,8 @@ impl CommitPipeline {
 				Some(batch) => {
 					// Publish this batch's sequence number
 					let new_visible = batch.get_seq_num() + batch.count as u64 - 1;
+					#[cfg(surrealkv_verif)]
+					crate::verif::gate("publish.dequeued", &[("seq", batch.get_seq_num())]);
 
 					loop {
 						let current = self.visible_seq_num.load(Ordering::Acquire);
